@@ -8,6 +8,7 @@ SPEC = {
     # real loopback sockets (relational correspondence) and the source-shape tie of the split loop
     "extra": [udp_loop.step, udp_split.step],
     "assumptions": [
+        "kernel: UDP_GRO_CNT_MAX = 64 segments per coalesced receive (C19_gro_buffer_holds_batch; gro_segments() of the compiled crate is read on every run as UDP_GRO_SEGMENTS)",
         "kernel: UDP_SEGMENT sends chunks of gso_size with a shorter last one; UDP_GRO merges only equal-size datagrams of "
         "one flow plus an optional shorter last one and reports the size of the first as stride, never 0 (with stride 0 the "
         "split loop of poll_socket would not terminate: theorem C19_split_stride_zero_hangs; not peer-controlled)",
